@@ -112,6 +112,7 @@ type Exec struct {
 	viewAtoms        []viewAtom
 	keyPairs         []*smt.Term
 	curLoc           string
+	callStack        []string
 }
 
 // ResultSet accumulates the results of the paths of one harness.
@@ -280,6 +281,7 @@ func (e *Exec) runOnePath(fn *ssa.Function, prefix []int) {
 	e.catchDepth = 0
 	e.curDeferFrame, e.joins, e.splitObligations, e.digitAtoms, e.bech32Atoms, e.viewAtoms, e.keyPairs = nil, nil, nil, nil, nil, nil, nil
 	e.initMode = false
+	e.callStack = nil
 	reason := "returned"
 	func() {
 		defer func() {
